@@ -271,7 +271,7 @@ def pong(R):
              func=q3, node=y.ast)
 
 
-def close(R):
+def close(R, RID='C15.close'):
     q, g, rd, f = _check_fn(R, '_check_close_timeout')
     to, tm = f.params[1], f.params[2]
     sent = None
@@ -292,7 +292,7 @@ def close(R):
             extra = {x for x in l if x not in {(to, True), ('%s is None' % sent, False)} and lin_cmp(x[0], x[1], alias) != want}
             if (to, True) not in l or ('%s is None' % sent, False) not in l or want not in lins or extra:
                 bad.append(sorted(l))
-        R.ob('C15.close', 'forced disconnect exactly under the close-timeout condition', not bad and toks == {'session._ForceDisconnect'},
+        R.ob(RID, 'forced disconnect exactly under the close-timeout condition', not bad and toks == {'session._ForceDisconnect'},
              'close timeout raises %s under %s' % (sorted(toks), bad[:1]), func=f, node=r.ast)
     bad = []
     neg = ({k: -v for k, v in want[0].items()}, '>')
@@ -300,14 +300,14 @@ def close(R):
         lins = _lits_lin(l, alias)
         if (to, False) not in l and ('%s is None' % sent, True) not in l and neg not in lins:
             bad.append(sorted(l))
-    R.ob('C15.close', 'close timeout withheld only when disabled / no close sent / not yet due', not bad,
+    R.ob(RID, 'close timeout withheld only when disabled / no close sent / not yet due', not bad,
          '_check_close_timeout returns without raising under %s (a close sent at session time 0.0 must still count as '
          'sent)' % bad[:1], func=f, node=None, construct='close timeout withheld: %s' % bad[:1])
     # sent_close_time
     w = [(c, s, t, v) for (c, s, t, v) in stores_in_package(R, 'sent_close_time')
          if any(x == 'inst:websocket.WebSocket.State' for x in R.types.expr(t.value, c))]
     quals = sorted(set(c.func.qual for (c, s, t, v) in w))
-    R.ob('C15.close', 'writers of sent_close_time', quals == ['websocket.WebSocket.State.__init__', 'websocket.WebSocket.close'],
+    R.ob(RID, 'writers of sent_close_time', quals == ['websocket.WebSocket.State.__init__', 'websocket.WebSocket.close'],
          'sent_close_time written in %s' % quals, func='websocket.WebSocket.close', node=None,
          construct='sent_close_time writers %s' % quals)
     gq = 'websocket.WebSocket.close'
@@ -315,20 +315,20 @@ def close(R):
     rdc = ReachingDefs(gc)
     for (c, s, t, v) in w:
         if c.func.qual != gq:
-            R.ob('C15.close', 'initial close time is None', U(v) == 'None', 'sent_close_time initialised to %s' % U(v),
+            R.ob(RID, 'initial close time is None', U(v) == 'None', 'sent_close_time initialised to %s' % U(v),
                  func=c.func, node=s)
             continue
         n = [m for m in gc.live_nodes() if m.ast is s][0]
-        R.ob('C15.close', 'close time is the session time', U(v) == 'self.session.session_time', 'sent_close_time = %s' % U(v),
+        R.ob(RID, 'close time is the session time', U(v) == 'self.session.session_time', 'sent_close_time = %s' % U(v),
              func=gq, node=s)
         lits = {(t_, p) for (t_, p, _) in guards_of(gc, n)}
         ok = ('self.state.closing', False) in lits or ('self.is_closing', False) in lits
-        R.ob('C15.close', 'close time recorded only by the first close()', ok,
+        R.ob(RID, 'close time recorded only by the first close()', ok,
              'every repeated close() re-arms the close timeout (guards: %s): the forced disconnect can be postponed '
              'indefinitely' % sorted(lits), func=gq, node=s)
         sc = [m for (m, _) in calls_to(R, gc, 'websocket.WebSocket._send_close')]
         ok = bool(sc) and all_paths_pass(gc, [gc.entry], sc, [n], skip_edge=nx)
-        R.ob('C15.close', 'close time recorded after the Close frame was sent', ok, 'sent_close_time stored before the send',
+        R.ob(RID, 'close time recorded after the Close frame was sent', ok, 'sent_close_time stored before the send',
              func=gq, node=s)
 
 
